@@ -36,7 +36,10 @@ ASSUMPTIONS = ["function names, identifiers and GUID hex digits are left alone (
 SHARDS = {"quick": 12, "thorough": 16}
 BUDGET_S = {"quick": 55, "thorough": 700}
 
-WS = [" ", "  ", "\t", "\n", " \t ", "\n  ", "   "]
+WS = [" ", "  ", "\t", "\n", " \t ", "\n  ", "   ",
+      # runs made of ONE kind of character only, carriage returns, form feed / vertical tab,
+      # and the Unicode spaces \\s matches
+      "\r", "\r\r", "\r\n", "\n\n", "\t\t", "\f", "\v", "\u00a0", "\u2003", "\u3000", "\u2028", " \r", "\r "]
 
 
 LONG_RUNS = [129, 130, 255, 256, 257, 1000, 4096, 70000]
